@@ -120,6 +120,7 @@ func c13Branches(w *World, r *Report) {
 			}
 		}
 		n := 0
+		noneDone := false
 		for i, rp := range g.classifyReturns() {
 			if rp.Class != RetSuccess {
 				continue
@@ -161,26 +162,50 @@ func c13Branches(w *World, r *Report) {
 			case "reset-then-reuse":
 				r.Check(isOverlay(v) && len(defStores) == 0, "C13/BRANCHES", key, w.InstrPos(rp.Ret), "reset-then-reuse returns CoalesceTables(new, deployed.Config) and keeps the new chart's defaults", "with reset-then-reuse-values the result is not new-over-deployed or the chart defaults are replaced")
 			case "none":
-				ok := false
-				why := ""
-				if phi, isPhi := v.(*ssa.Phi); isPhi {
-					ok = true
-					for k, e := range phi.Edges {
-						switch {
-						case e == newVals:
-						case isCurrentField(e, "Config"):
-							// only where len(newVals) == 0
-							pred := phi.Block().Preds[k]
-							if !lenZeroGuard(g, fn, newVals, pred) {
-								ok, why = false, "deployed values replace new values that are not empty"
-							}
-						default:
-							ok, why = false, "a value other than new / deployed.Config is returned"
-						}
+				// judged once over all success returns of the mode (a single return of a phi, or one
+				// return per case)
+				if noneDone {
+					continue
+				}
+				noneDone = true
+				ok, why := true, ""
+				carried := false
+				type rv struct {
+					v  ssa.Value
+					at *ssa.BasicBlock
+				}
+				var vals []rv
+				for _, rp2 := range g.classifyReturns() {
+					if rp2.Class != RetSuccess {
+						continue
 					}
-				} else if v == newVals {
+					v2 := rp2.Ret.Results[0]
+					if phi, isPhi := v2.(*ssa.Phi); isPhi {
+						for k, e := range phi.Edges {
+							if g.Reachable()[phi.Block().Preds[k]] && g.edgeFeasible(phi.Block().Preds[k], phi.Block()) {
+								vals = append(vals, rv{e, phi.Block().Preds[k]})
+							}
+						}
+					} else {
+						vals = append(vals, rv{v2, rp2.Ret.Block()})
+					}
+				}
+				for _, x := range vals {
+					switch {
+					case x.v == newVals:
+					case isCurrentField(x.v, "Config"):
+						carried = true
+						if !lenZeroGuard(g, fn, newVals, x.at) {
+							ok, why = false, "deployed values replace new values that are not empty"
+						}
+					default:
+						ok, why = false, "a value other than new / deployed.Config is returned"
+					}
+				}
+				if ok && !carried {
 					ok, why = false, "the deployed values are never carried forward"
 				}
+				key = "none/returns"
 				r.Check(ok && len(defStores) == 0, "C13/BRANCHES", key, w.InstrPos(rp.Ret), "without flags the new values are returned, the deployed revision's only where no new values were given", "without flags: "+why)
 			}
 		}
